@@ -596,6 +596,11 @@ func runHistory(t *testing.T, sp Spec) Result {
 			store = noBatch{rec} // the underlying store has no batch extension: do not advertise one
 		}
 		d := &dispatcher.PushDispatcher{Store: store, Deliverer: del, Routes: w.Routes, Logger: discard}
+		if strings.HasPrefix(sp.Store, "sqlite") {
+			// SQLite's Dequeue polls every 25ms of virtual time with a real query; a shorter long-poll keeps the
+			// drain at the end of a history cheap (no influence on classification, delay or settlement)
+			d.MaxWait = 250 * time.Millisecond
+		}
 		d.Start()
 
 		for round := 0; ; round++ {
